@@ -55,6 +55,19 @@ def gen_case(rng, ltype, sharp=True):
         cfg["anisotropy_model"] = "const"
         h["kwargs_kin"]["a_ani"] = rng.uniform(0.52, 0.69)      # both a and 1 - a^2 inside the grid [0.5, 4]
         h["kwargs_kin"]["a_ani_sigma"] = 0.0
+    if sharp and ltype in lc.KIN_TYPES and rng.random() < 0.3:
+        # the J-scaling tabulated over a LENS parameter only (the lens' own slope), no anisotropy parameter at all: the report
+        # re-scales J with the slope exactly as the likelihood does
+        for key in ("kin_scaling_param_list", "j_kin_scaling_param_axes", "j_kin_scaling_grid_list", "anisotropy_model",
+                    "anisotropy_distribution", "_scaling_axis"):
+            cfg.pop(key, None)
+        nb = len(data["sigma_v_measurement"])
+        axis = np.linspace(1.6, 2.4, 5)
+        cfg.update(kin_scaling_param_list=["gamma_pl"], j_kin_scaling_param_axes=axis, gamma_pl_index=0, anisotropy_sampling=False,
+                   j_kin_scaling_grid_list=[np.array([rng.uniform(0.7, 1.4) for _ in axis]) for _ in range(nb)])
+        h["kwargs_lens"]["gamma_pl_list"] = [rng.choice([2.23, 1.78, 2.1, 1.95])]
+        sv = h["kwargs_kin"].get("sigma_v_sys_error")
+        h["kwargs_kin"] = {} if sv is None else {"sigma_v_sys_error": sv}
     cfg["num_distribution_draws"] = rng.choice([2, 3, 5]) if sharp else 4000
     if ltype in lc.KIN_TYPES:
         data["sigma_sys_error_include"] = rng.random() < 0.5
@@ -191,6 +204,15 @@ def oracle(case, out, lens, cosmo):
             kn = KinLikelihood(cfg["z_lens"], cfg["z_source"], d["sigma_v_measurement"], d["j_model"], d["error_cov_measurement"],
                                d["error_cov_j_sqrt"], normalized=True, sigma_sys_error_include=d.get("sigma_sys_error_include", False))
             ks = np.array(out["draws"][0][2]) if out["draws"] else None
+            if cfg.get("kin_scaling_param_list") == ["gamma_pl"] and cfg.get("gamma_pl_index") is not None:
+                # a scaling tabulated over the lens' own slope: the report is built on the scaling at THAT slope (as the
+                # likelihood is), whether or not an anisotropy parameter exists
+                g = h["kwargs_lens"]["gamma_pl_list"][cfg["gamma_pl_index"]]
+                ks_exp = np.atleast_1d(np.array(lens.kin_scaling({"gamma_pl": g}), dtype=float))
+                ks_got = np.ones_like(ks_exp) if ks is None else np.broadcast_to(ks, ks_exp.shape) if ks.size == 1 else ks
+                if ks_got.shape != ks_exp.shape or not np.allclose(ks_got, ks_exp, rtol=1e-12, atol=0):
+                    fails.append("the reported prediction is built on the kinematic scaling %r; the lens' own slope gamma_pl = %r gives %r on its "
+                                 "scaling grid" % (ks_got.tolist(), g, ks_exp.tolist()))
             if "kin_scaling_param_list" in cfg and ks is not None and "a_ani" in h["kwargs_kin"]:
                 # the anisotropy the report is built on is the declared one: the lens-level parameter of the declared
                 # parameterisation at zero scatter, interpolated on the lens' own grid
